@@ -168,10 +168,39 @@ fn main() {
             }
         }
     }
+    // pseudo-size 99: cross-size sequences (see below), one shard per group
+    for g in Group::ALL {
+        shards.push((g, 99, 0, 1));
+    }
     shards.sort_by_key(|(g, n, _, _)| std::cmp::Reverse((*g == Group::Npn) as usize * 100 + *n));
     run_sharded(&mut ctx, cli.threads, shards.len(), |ctx, k| {
         let (g, n, c, chunks) = shards[k];
         let mut rng = Rng::new(seed ^ ((n as u64) << 48) ^ ((g as u64) << 42) ^ (c as u64).wrapping_mul(0x9e3779b1));
+        if n == 99 {
+            // The same raw table word canonized at consecutive sizes on one thread (a word with its upper
+            // bits clear is a well-formed table of several sizes): results must not depend on what was
+            // computed just before (caches, memo tables, thread-local scratch state).
+            let reps = if thorough { 3000 } else { 200 };
+            for r in 0..reps {
+                let top = rng.range(2, 5); // the word is a table of `top` variables ...
+                let w = match r % 3 {
+                    0 => rng.next_u64(),
+                    1 => !(rng.next_u64() & rng.next_u64() & rng.next_u64()),
+                    _ => rng.next_u64() & rng.next_u64(),
+                } & gen::low_mask(top);
+                // ... and of every larger single-word size
+                let mut sizes: Vec<usize> = (top..=6).collect();
+                sizes.extend((top..=6).rev());
+                if rng.bool() {
+                    rng.shuffle(&mut sizes);
+                }
+                for nn in sizes {
+                    ctx.cell_only(&format!("cross-size-sequence|{}|n={}", g.name(), nn));
+                    both(ctx, nn, g, &[w], "cross-size-sequence", false);
+                }
+            }
+            return;
+        }
         if n <= 4 {
             let count: u64 = 1u64 << (1u64 << n);
             for x in 0..count {
@@ -252,6 +281,11 @@ fn main() {
                     }
                 }
             }
+        }
+    }
+    for g in Group::ALL {
+        for nn in 3..=6 {
+            required.push(format!("cross-size-sequence|{}|n={}", g.name(), nn));
         }
     }
     cli.finish(&ctx, &required, RULE);
